@@ -60,8 +60,11 @@ fn panic_text(p: Box<dyn std::any::Any + Send>) -> String {
 
 /// run `f` on a worker thread (256 MB stack: deep but finite recursion must not be mistaken for a
 /// crash) with `reset()` before and `work()` after
+/// hangs that belong to a known finding (the exact-cusp inputs): they do not count towards the threshold
+/// after which guarded evaluations are skipped, but at most three of them are provoked per run
+static KNOWN_HUNG: AtomicU32 = AtomicU32::new(0);
 fn guarded<R: Send + 'static>(f: impl FnOnce() -> R + Send + 'static) -> Run<R> {
-    if HUNG.load(Ordering::Relaxed) >= 3 {
+    if HUNG.load(Ordering::Relaxed).saturating_sub(KNOWN_HUNG.load(Ordering::Relaxed)) >= 3 {
         return Run::Skipped;
     }
     let (tx, rx) = std::sync::mpsc::channel();
@@ -537,8 +540,63 @@ fn dash_pieces(a: &[f64], len: f64, nels: usize) -> f64 {
     let dmin = a[9..9 + nd].iter().cloned().fold(f64::INFINITY, f64::min);
     nels as f64 + 2.0 * (len / dmin + 1.0)
 }
+/// Known finding C14-exact-cusp: `detect_cusp` does not report a cusp through which the derivative passes exactly
+/// (up to rounding), so `regularize` leaves a zero derivative inside the cubic handed to the offsetter.  The test
+/// is the one the declined repair (proposed_fixes/C14-detect-cusp-through-origin.diff) would add to `detect_cusp`:
+/// the point of the derivative curve nearest to the origin, at an interior parameter, is within 1e-12 |q''| of it.
+fn derivative_through_origin(c: &CubicBez) -> bool {
+    use kurbo::ParamCurveDeriv;
+    let q = c.deriv();
+    let nr = match direct(|| q.nearest(Point::ORIGIN, 1e-9)) {
+        Run::Done(n, _) => n,
+        _ => return false,
+    };
+    let d2 = q.deriv().eval(nr.t).to_vec2().hypot2();
+    nr.t > 0.0 && nr.t < 1.0 && d2 > 0.0 && nr.distance_sq <= 1e-24 * d2
+}
+/// does the stroker regularize a cubic of this kind: a curve of the path itself or, with a dash pattern, one of the
+/// pieces the dasher cuts (computed here on a worker thread, capped)
+fn exact_cusp_in(els: &[PathEl], dashes: &[f64], offset: f64) -> bool {
+    if cubics_of(els).iter().any(derivative_through_origin) {
+        return true;
+    }
+    if dashes.is_empty() || !matches!(els.first(), Some(PathEl::MoveTo(_))) {
+        return false;
+    }
+    let (e2, d2) = (els.to_vec(), dashes.to_vec());
+    let pieces = match guarded(move || dash(e2.iter().cloned(), offset, &d2).take(20_000).collect::<Vec<_>>()) {
+        Run::Done(p, _) => p,
+        _ => return false,
+    };
+    let mut cur = Point::ORIGIN;
+    for e in pieces {
+        match e {
+            PathEl::MoveTo(p) | PathEl::LineTo(p) => cur = p,
+            PathEl::QuadTo(p1, p2) => {
+                if derivative_through_origin(&QuadBez::new(cur, p1, p2).raise()) {
+                    return true;
+                }
+                cur = p2;
+            }
+            PathEl::CurveTo(p1, p2, p3) => {
+                if derivative_through_origin(&CubicBez::new(cur, p1, p2, p3)) {
+                    return true;
+                }
+                cur = p3;
+            }
+            PathEl::ClosePath => {}
+        }
+    }
+    false
+}
+
 fn law_stroke(a: &[f64]) -> Option<(String, String)> {
-    let fam = fam_of(a);
+    let nd0 = (a[7] as usize).min(4);
+    let exact_cusp = exact_cusp_in(&dec_els(&a[SH..]), &a[9..9 + nd0], a[8]);
+    if exact_cusp && KNOWN_HUNG.load(Ordering::Relaxed) >= 3 {
+        return None; // three hangs of the known finding have been provoked already
+    }
+    let fam = if exact_cusp { "exact-cusp" } else { fam_of(a) };
     let (width, tol) = (a[1], a[2]);
     let els = dec_els(&a[SH..]);
     let style = dec_style(a);
@@ -552,7 +610,12 @@ fn law_stroke(a: &[f64]) -> Option<(String, String)> {
     let input = move || format!("stroke({}; {})", path_str(&els2), style_str(&a2));
     let run = guarded(move || stroke(els.iter().cloned(), &style, &StrokeOpts::default(), tol));
     let out = match judge("stroke", fam, run, work_budget, 1, &input) {
-        Err(v) => return Some(v),
+        Err(v) => {
+            if exact_cusp && v.0.contains(":hang:") {
+                KNOWN_HUNG.fetch_add(1, Ordering::Relaxed);
+            }
+            return Some(v);
+        }
         Ok(None) => return None,
         Ok(Some(o)) => o,
     };
@@ -625,7 +688,7 @@ fn g_fit(r: &mut Rng) -> Vec<f64> {
     let (fam, els, s) = gen_family_path(r);
     let acc = gen_tol(r);
     let d = s * *r.pick(&[0.005, 0.05, 0.5, 1.0, 5.0, -0.005, -0.5, -1.0, -5.0]);
-    let mut v = vec![fam as f64, r.below(3) as f64, acc, d, acc * 0.25];
+    let mut v = vec![fam as f64, r.below(2) as f64, acc, d, acc * 0.25];
     v.extend(enc_els(&els));
     v
 }
@@ -671,9 +734,13 @@ fn cubics_of(els: &[PathEl]) -> Vec<CubicBez> {
     v
 }
 fn law_fit(a: &[f64]) -> Option<(String, String)> {
-    let fam = fam_of(a);
     let (mode, acc, d, dim) = (a[1] as usize, a[2], a[3], a[4]);
     let els = dec_els(&a[5..]);
+    let exact_cusp = mode == 0 && cubics_of(&els).iter().any(derivative_through_origin);
+    if exact_cusp && KNOWN_HUNG.load(Ordering::Relaxed) >= 3 {
+        return None;
+    }
+    let fam = if exact_cusp { "exact-cusp" } else { fam_of(a) };
     let (len, n) = poly_len(&els);
     let work_budget = (20_000 + n * 800_000) as u64;
     let out_budget = (16.0 + n as f64 * (48.0 + 4.0 * ((len + d.abs()) / acc).sqrt())) as u64;
@@ -725,7 +792,12 @@ fn law_fit(a: &[f64]) -> Option<(String, String)> {
         outs
     });
     let out = match judge(what, fam, run, work_budget, if mode == 2 { 13 } else { 5 }, &input) {
-        Err(v) => return Some(v),
+        Err(v) => {
+            if exact_cusp && v.0.contains(":hang:") {
+                KNOWN_HUNG.fetch_add(1, Ordering::Relaxed);
+            }
+            return Some(v);
+        }
         Ok(None) => return None,
         Ok(Some(o)) => o,
     };
@@ -764,8 +836,10 @@ fn g_opt(r: &mut Rng) -> Vec<f64> {
 }
 static OPT_HUNG: AtomicU32 = AtomicU32::new(0);
 fn law_opt(a: &[f64]) -> Option<(String, String)> {
-    // one hang is enough to report; the hung thread keeps a core busy
-    if OPT_HUNG.load(Ordering::Relaxed) >= 1 {
+    // one hang is enough to report (the hung thread keeps a core busy), and so are a dozen findings of this
+    // known-defective, non-default function: the list of violations is capped
+    static REPORTED: AtomicU32 = AtomicU32::new(0);
+    if OPT_HUNG.load(Ordering::Relaxed) >= 1 || REPORTED.load(Ordering::Relaxed) >= 12 {
         return None;
     }
     let r = if a[0] >= 100.0 {
@@ -777,6 +851,7 @@ fn law_opt(a: &[f64]) -> Option<(String, String)> {
     };
     // classes of the optimising fitter: opt:<kind>:<entry point>:<family>
     r.map(|(c, d)| {
+        REPORTED.fetch_add(1, Ordering::Relaxed);
         if c.contains(":hang:") {
             OPT_HUNG.fetch_add(1, Ordering::Relaxed);
         }
@@ -883,7 +958,14 @@ fn law_seg_queries(a: &[f64]) -> Option<(String, String)> {
                     return fail(format!("arclen:work-budget:{}", fam), format!("{} calls of arclen_rec (proved bound 2^21 - 1) on {}.arclen({:?})", w, seg_str(&s), acc));
                 }
                 if !l.is_finite() || l < 0.0 {
-                    return fail(format!("arclen:nonfinite:{}", fam), format!("{}.arclen({:?}) = {:?}", seg_str(&s), acc, l));
+                    // QuadBez with coincident control points (P,P,Q / P,Q,Q / P,P,P): the closed form is 0/0 or the square root of a rounding-size negative number (property C03's open issue, proposed_fixes/C03-quad-arclen-degenerate.diff)
+                    let ppp = matches!(s, PathSeg::Quad(q) if q.p0 == q.p1 || q.p1 == q.p2);
+                    let cls = if ppp { "arclen:nonfinite:degenerate-quad".to_string() } else { format!("arclen:nonfinite:{}", fam) };
+                    static SEEN: AtomicU32 = AtomicU32::new(0);
+                    if ppp && SEEN.fetch_add(1, Ordering::Relaxed) >= 3 {
+                        continue;
+                    }
+                    return fail(cls, format!("{}.arclen({:?}) = {:?}", seg_str(&s), acc, l));
                 }
                 l
             }
@@ -902,8 +984,16 @@ fn law_seg_queries(a: &[f64]) -> Option<(String, String)> {
                 // (a line's inv_arclen extrapolates outside [0, len]: only finiteness is the claim here)
                 if !t.is_finite() {
                     let zero_line = matches!(s, PathSeg::Line(l) if l.p0 == l.p1);
-                    let cls = if zero_line { "inv_arclen:nonfinite:zero-length-line".to_string() } else { format!("inv_arclen:nonfinite:{}", fam) };
-                    return fail(cls, format!("{} = {:?}", input(), t));
+                    if zero_line {
+                        // known finding C14-line-inv-arclen-zero-length: report it three times per run at most, the
+                        // list of violations is capped and must keep room for anything else
+                        static SEEN: AtomicU32 = AtomicU32::new(0);
+                        if SEEN.fetch_add(1, Ordering::Relaxed) >= 3 {
+                            continue;
+                        }
+                        return fail("inv_arclen:nonfinite:zero-length-line".to_string(), format!("{} = {:?}", input(), t));
+                    }
+                    return fail(format!("inv_arclen:nonfinite:{}", fam), format!("{} = {:?}", input(), t));
                 }
                 if !matches!(s, PathSeg::Line(_)) && !(0.0..=1.0).contains(&t) {
                     return fail(format!("inv_arclen:range:{}", fam), format!("{} = {:?}", input(), t));
@@ -1337,7 +1427,7 @@ fn corr_bisect(r: &mut Rng, thorough: bool, o: &mut Out) {
         }
         let marks2 = marks.clone();
         let run = guarded(move || {
-            let src = Marked { marks: marks2, limit: 200_000 };
+            let src = Marked { marks: marks2, limit: 40_000 };
             fit_to_bezpath(&src, 1e-3)
         });
         match run {
@@ -1402,13 +1492,22 @@ fn corr_regularize(r: &mut Rng, thorough: bool, o: &mut Out) {
         args.push(dim);
         args.push(cusp as f64);
         let dim2 = dim * dim;
+        // which branch of the two nudging steps was taken (recomputed here for the tag only)
         let near0 = c.p0.distance_squared(c.p1) < dim2;
-        let near3 = reg.p3.distance_squared(c.p2) < dim2;
-        let tag = format!("{}{}{}", if near0 { "n0" } else { "" }, if near3 { "n3" } else { "" }, ["", "+loop", "+dblinfl"][cusp as usize]);
+        let line0 = near0 && c.p0.distance_squared(c.p2) < dim2;
+        let near3 = !line0 && c.p3.distance_squared(c.p2) < dim2;
+        let p1_after = if near0 && !line0 { reg.p1 } else { c.p1 };
+        let line3 = near3 && p1_after.distance_squared(c.p2) < dim2;
+        let tag = format!(
+            "{}{}{}",
+            if line0 { "p1:line" } else if near0 { "p1:nudged" } else { "p1:kept" },
+            if line0 { "" } else if line3 { ",p2:line" } else if near3 { ",p2:nudged" } else { ",p2:kept" },
+            ["", "+loop", "+dblinfl"][cusp as usize]
+        );
         let exact = cusp == 0;
         let finite = cubic8(&reg).iter().all(|x| x.is_finite());
         if exact {
-            o.case(2, "regularize-nudge", args.clone(), cubic8(&reg), near0 || near3, if tag.is_empty() { "unchanged" } else { &tag });
+            o.case(2, "regularize-nudge", args.clone(), cubic8(&reg), near0 || near3, &tag);
         } else if !structured && finite {
             o.case(3, "regularize-cusp", args.clone(), cubic8(&reg), true, &tag);
         }
@@ -1584,7 +1683,26 @@ fn replay_witnesses(o: &mut Out) {
             o.violation(&class, format!("[witness P,P,P quadratic] {}", desc), format!("{{\"law\":\"segment_queries_total\",\"args\":{}}}", crate::util::fmt_fs(&a)));
         }
     }
-    // ---- known findings (no small safe repair, or the repair is another property's)
+    // ---- known findings (no small safe repair, or the repair is another property's / was declined)
+    {
+        let a = stroke_args("cusp", "M(921943.8867939675,817150.4316114683) C(921935.4015125933,817140.5321165317)(921932.5730854685,817139.1179029694)(921946.7152210922,817151.8458250307)", 1.0, 0.002064726455013298, 1, 4.0, (0, 2), &[], 0.0);
+        // (not through law_stroke: after three hangs of this finding the law stops executing exact cusps)
+        let (els, style, tol) = (dec_els(&a[SH..]), dec_style(&a), a[2]);
+        let classified = exact_cusp_in(&els, &[], 0.0);
+        let nan = match guarded(move || stroke(els.iter().cloned(), &style, &StrokeOpts::default(), tol)) {
+            Run::Done(out, _) => nonfinite_in(out.elements()).is_some(),
+            Run::Skipped => false,
+            _ => true,
+        };
+        o.known(
+            "C14-exact-cusp",
+            classified && nan,
+            "stroke of the exact cusp M(921943.8867939675,817150.4316114683) C(921935.4015125933,817140.5321165317)(921932.5730854685,817139.1179029694)(921946.7152210922,817151.8458250307), width 1, tolerance 0.002064726455013298 contains NaN (detect_cusp: cross == 0.0)".into(),
+        );
+        let q = QuadBez::new((0.02, -0.04), (0.02, -0.04), (0.02, -0.04));
+        let l = q.arclen(1e-3);
+        o.known("C14-degenerate-quad-arclen", !l.is_finite(), format!("QuadBez((0.02,-0.04),(0.02,-0.04),(0.02,-0.04)).arclen(1e-3) = {:?}", l));
+    }
     let zero_line = Line::new((1.0, 1.0), (1.0, 1.0));
     let t = zero_line.inv_arclen(0.0, 1e-3);
     o.known("C14-line-inv-arclen-zero-length", !t.is_finite(), format!("Line((1,1),(1,1)).inv_arclen(0, 1e-3) = {:?} (0/0)", t));
@@ -1596,8 +1714,8 @@ fn replay_witnesses(o: &mut Out) {
     {
         let mut a = vec![fam_ix("repeat"), 2.0, 1.0, 0.5, 0.25];
         a.extend(enc_els(&parse_path("M(-999968.0,-999965.0) C(-999959.0,-999959.0)(-999971.0,-999962.0)(-999968.0,-999965.0) C(-999961.0,-999958.0)(-999961.0,-999958.0)(-999968.0,-999965.0)")));
-        let r = law_opt(&a);
-        o.known("C14-fit-opt-unwrap", matches!(&r, Some((c, _)) if c.starts_with("opt:panic-unwrap")), "fit_to_bezpath_opt panics in fit_to_cubic(..).unwrap() on a closed cubic loop (SimplifyBezPath source)".into());
+        let r = law_fit(&a);
+        o.known("C14-fit-opt-unwrap", matches!(&r, Some((c, _)) if c.contains(":panic-unwrap:")), "fit_to_bezpath_opt panics in fit_to_cubic(..).unwrap() on a closed cubic loop (SimplifyBezPath source)".into());
     }
 }
 
